@@ -106,6 +106,8 @@ class Style:
         self.kwcase = rnd.choice(["upper", "lower", "mixed"])
         self.quote = rnd.choice(["bare", "bare", "dq", "br", "bt", "mix"])
         self.named = rnd.random() < 0.25
+        # identifiers are case-insensitive (ASCII): every occurrence of a name may be spelled in another case
+        self.idcase = rnd.random() < 0.35
         self.ws = rnd.choice([" ", " ", "  ", "\n  ", "\t"])
 
     def kw(self, s):
@@ -116,6 +118,8 @@ class Style:
         return "".join(ch.upper() if self.rnd.random() < 0.5 else ch.lower() for ch in s)
 
     def ident(self, s):
+        if self.idcase:
+            s = "".join((ch.upper() if self.rnd.random() < 0.5 else ch.lower()) if ch.isascii() else ch for ch in s)
         q = self.quote if self.quote != "mix" else self.rnd.choice(["bare", "dq", "br", "bt"])
         if q == "dq":
             return '"%s"' % s
